@@ -526,6 +526,17 @@ pub fn generate(w: &mut dyn Write, seed: u64, thorough: bool) {
                 dec_case(w, kname, "client", &cfg.ckey, "-", "none", now, &rng.bytes(l));
             }
         }
+        // ---- a context key of the wrong length (2022 AES kinds: an error return, never a panic) ----
+        if aes22 {
+            for klen in [0usize, 1, 15, 16, 17, 31, 32, 33, 64] {
+                let k = rng.bytes(klen);
+                for l in [0usize, 42, 43, 51, 80] {
+                    dec_case(w, kname, "server", &k, "-", "none", now, &rng.bytes(l));
+                    dec_case(w, kname, "server", &k, "-", &table, now, &rng.bytes(l + 16));
+                    dec_case(w, kname, "client", &k, "-", "none", now, &rng.bytes(l));
+                }
+            }
+        }
         // ---- session level: the client's DatagramPacketCodec ----
         let cr = UCraft { kname, cipher };
         let mk = |rng: &mut Rng, ssid: u64, pid: u64, tag: u8| -> Vec<u8> {
